@@ -420,6 +420,365 @@ def c06(tier, rng, rep, only=None):
                 rep.violation("self-check: no %s/%s outcome" % (fam, k), {"kind": "coverage"}, no_input=True)
 
 
+# ------------------------------------------------------------------------------------- C14
+
+def c14(tier, rng, rep, only=None):
+    from syntax import INT_TYPES, ity_min, ity_max
+    decls = only if only is not None else [d for d in corpus.gen_arb_ints(rng.fork("arbint"), tier) if not getattr(d, "has_san", False)]
+    g = flows.GuardRun("arbint" if tier == "quick" else "arbint_t", decls)
+    for d in decls:
+        g.add_ops(d, [("arb_range", "")])
+    dropped = g.build()
+    g.run_model()
+    n_cover = 0
+    sizes = {}
+    for d in decls:
+        if d.id not in g.live:
+            if not g.model_verdict.get(d.id, "").startswith("reject"):
+                rep.notes.append("declaration %s unexpectedly rejected: %s" % (d.id, dropped.get(d.id, [""])[0][:200]))
+            continue
+        m = g.by_decl[d.id][0].model or ""
+        if not m.startswith("range ") or m == "range none":
+            rep.notes.append("no model range for %s: %s" % (d.id, m))
+            continue
+        _, lo, hi = m.split()
+        lo, hi = int(lo), int(hi)
+        d.model_range = (lo, hi)
+        if hi - lo + 1 > 65536 or hi < lo:
+            continue
+        tlo, thi = ity_min(d.inner), ity_max(d.inner)
+        if INT_TYPES[d.inner][1] <= 16:
+            wlo, whi = tlo, thi
+        else:
+            wlo, whi = max(tlo, lo - 1000), min(thi, hi + 1000)
+        L = 1 if hi - lo < 256 else 2
+        g.add_ops(d, [("arb_cover", "(w %d %d %d)" % (L, wlo, whi))])
+        n_cover += 1
+        sizes[L] = sizes.get(L, 0) + 1
+    g.run_impl()
+    n_vals = 0
+    for d in decls:
+        if d.id not in g.live or not hasattr(d, "model_range"):
+            continue
+        cs = [c for c in g.by_decl[d.id] if c.op == "arb_cover"]
+        if not cs:
+            continue
+        c = cs[0]
+        lo, hi = d.model_range
+        if not c.impl or not c.impl.startswith("cover "):
+            rep.violation("arb_cover failed on %s: %s" % (d.id, c.impl), case_payload(c, g), no_input=True)
+            continue
+        kv = dict(x.split("=") for x in c.impl.split()[1:])
+        n_vals += int(kv["n"])
+        rep.samples.append({"decl": d.id, "inner": d.inner, "model_range": [lo, hi], "impl": c.impl}) if len(rep.samples) < 6 else None
+        if kv["panics"] != "0":
+            rep.notes.append("%s: %s generator panics (C09's concern)" % (d.id, kv["panics"]))
+        if kv["missing"] != "-":
+            rep.violation("valid value %s of %s is never produced by Arbitrary over all %s-byte inputs (produced %s values in [%s, %s], valid %s)"
+                          % (kv["missing"], d.id, c.arg.split()[1], kv["n"], kv["min"], kv["max"], kv["valid_n"]),
+                          case_payload(c, g, {"unreachable_value": kv["missing"], "model_range": [lo, hi]}))
+        elif (int(kv["n"]), kv["min"], kv["max"]) != (hi - lo + 1, str(lo), str(hi)):
+            rep.violation("model range [%d, %d] differs from the produced set of %s: %s" % (lo, hi, d.id, c.impl),
+                          case_payload(c, g, {"model_range": [lo, hi]}), no_input=True)
+    rep.coverage.update({"evaluations": n_cover, "distinct_nontrivial": n_cover,
+                         "rule": "integer declarations deriving Arbitrary (all 12 inner types, every bound-kind combination, literal and expression bounds incl. shift / arithmetic / MIN / MAX); for every declaration whose range has at most 2^16 elements ALL byte strings of the consumed length go through the real generator and the produced set is compared with the set of values the real constructor accepts and with the model's range",
+                         "values_produced": n_vals, "input_length_histogram": {str(k): v for k, v in sizes.items()},
+                         "exhaustive": True, "declarations": len(decls)})
+    if n_cover == 0 and only is None:
+        rep.violation("self-check: no declaration was covered", {"kind": "coverage"}, no_input=True)
+
+
+# ------------------------------------------------------------------------------------- C09
+
+def canon_nan(o, d):
+    if o and o.startswith("ok (f ") and d.inner in FLOAT_TYPES:
+        bits = int(o[6:-1])
+        if is_nan_bits(bits, FLOAT_TYPES[d.inner]):
+            return "ok (f nan)"
+    return o
+
+
+def c09_class(d):
+    """the recorded finding class a panicking declaration belongs to (None = not a known shape)"""
+    fam = d.family()
+    info = runner.DeclInfo(d)
+    if fam == "int":
+        if getattr(d, "sanitized", False):
+            return ("int_custom_sanitizer_with_bounds", "integer Arbitrary with a custom sanitizer and bounds picks a raw value in range; the sanitizer may move it out of range")
+        return None
+    if fam == "str":
+        sans = getattr(d, "sans", [])
+        if ("lowercase" in sans or "uppercase" in sans) and "len_char_max" in info.vkinds:
+            return ("str_case_sanitizer_with_len_char_max", "string Arbitrary ignores that lowercase/uppercase can lengthen the string (e.g. U+00DF -> SS), violating len_char_max")
+        return None
+    if fam == "float":
+        from syntax import bits_to_frac
+        from fractions import Fraction
+        is64 = FLOAT_TYPES[d.inner]
+        shape = getattr(d, "shape", None)
+        if shape is None:
+            return None
+        lk, uk = d.kinds
+        vals = {}
+        bi = 0
+        for s_ in shape:
+            if s_ in ("L", "U"):
+                vals[s_] = bits_to_frac(d.bounds[bi], is64)
+                bi += 1
+        excl = []
+        if "L" in vals and lk == "greater":
+            excl.append(vals["L"])
+        if "U" in vals and uk == "less":
+            excl.append(vals["U"])
+        delta = Fraction(4, 10 ** 15) if is64 else Fraction(2, 10 ** 6)
+        fmax = bits_to_frac(0x7FEFFFFFFFFFFFFF if is64 else 0x7F7FFFFF, is64)
+        if "L" in vals and "U" in vals and vals["U"] - vals["L"] > fmax:
+            return ("float_two_sided_range_overflow", "float Arbitrary with two bounds whose distance overflows the type: the scaled value is infinite or NaN")
+        if any(abs(b) >= 64 for b in excl):
+            return ("float_exclusive_bound_delta_absorbed", "float Arbitrary corrects a value equal to an exclusive bound by a fixed delta (2e-6 / 4e-15) that is absorbed by rounding once |bound| >= 64")
+        if "L" in vals and "U" in vals and excl and vals["U"] - vals["L"] <= 2 * delta:
+            return ("float_exclusive_bound_delta_exceeds_range", "float Arbitrary corrects an exclusive bound by a fixed delta that is wider than the whole valid range")
+        return None
+    return None
+
+
+def c09(tier, rng, rep, only=None):
+    if only is not None:
+        decls = only
+    else:
+        decls = (corpus.gen_arb_ints(rng.fork("arbint"), tier) + corpus.gen_arb_floats(rng.fork("arbfloat"), tier)
+                 + corpus.gen_arb_strs(rng.fork("arbstr"), tier))
+    g = flows.GuardRun("arb" if tier == "quick" else "arb_t", decls)
+    for d in decls:
+        ins = corpus.arb_byte_inputs(d, rng.fork(d.id), tier)
+        g.add_ops(d, [("arb", "(b%s)" % "".join(" %d" % b for b in bs)) for bs in ins])
+    dropped = run_guard_arb(g, rep, rng)
+    n = 0
+    cls = {}
+    for c in g.cases:
+        if c.decl.id not in g.live or c.impl is None:
+            continue
+        n += 1
+        d = c.decl
+        impl, model = canon_nan(c.impl, d), canon_nan(c.model, d)
+        kind = "ok" if impl.startswith("ok") else impl
+        cls[(d.family(), kind)] = cls.get((d.family(), kind), 0) + 1
+        if impl in ("panic", "hang"):
+            k = c09_class(d)
+            if k and model == "panic" and impl == "panic":
+                rep.known_hit(k[0], k[1])
+            else:
+                rep.violation("arbitrary(%s) %s on %s" % (c.arg, "panicked" if impl == "panic" else "did not terminate", d.id),
+                              case_payload(c, g))
+        elif model not in (None, "na") and impl != model:
+            rep.violation("model and implementation differ on arbitrary(%s): impl %s, model %s" % (c.arg, c.impl, c.model),
+                          case_payload(c, g), no_input=True)
+    rep.coverage.update({"evaluations": n, "distinct_nontrivial": sum(v for (f, k), v in cls.items() if k == "ok"),
+                         "rule": "integer / float / string declarations deriving Arbitrary; byte strings: empty, all 1-byte inputs, all-0x00 / all-0xFF of every length up to 64, boundary patterns, encodings of special floats and of case-expanding / white-space characters, random; the real arbitrary() runs under catch_unwind and a watchdog thread; a panic or hang is a violation unless it is in a recorded class AND the model predicts it",
+                         "outcome_classes": {"%s/%s" % k: v for k, v in sorted(cls.items())}, "exhaustive": False,
+                         "declarations": len(decls)})
+    for c in g.cases[:: max(1, len(g.cases) // 6)][:6]:
+        rep.samples.append({"decl": c.decl.id, "inner": c.decl.inner, "arg": c.arg, "impl": c.impl, "model": c.model})
+
+
+def run_guard_arb(g, rep, rng):
+    dropped = g.build()
+    g.run_impl()
+    # arb inputs are "(b 1 2 3)": the model takes the bytes directly
+    for c in g.cases:
+        pass
+    g.run_model()
+    n, diffs = g.vm_crosscheck(rng.fork("vm"), n=8)
+    rep.coverage["vm_compute_crosscheck"] = {"compared": n, "differences": len(diffs)}
+    for cid, a, b in diffs[:3]:
+        rep.violation("extracted model and vm_compute disagree on %s: %r vs %r" % (cid, a, b),
+                      {"kind": "extraction-mismatch", "case": cid}, no_input=True)
+    rep.coverage["timing"] = g.stats
+    for did, msgs in dropped.items():
+        if not g.model_verdict.get(did, "").startswith("reject"):
+            rep.notes.append("declaration %s unexpectedly rejected: %s" % (did, msgs[0][:200]))
+    return dropped
+
+
+# ------------------------------------------------------------------------------------- C12 / C13
+
+def parse_kv(o):
+    return dict(x.split("=") for x in o.split()) if o and "=" in o else None
+
+
+def pair_inputs(d, rng, tier):
+    fam = d.family()
+    vals = guardcorpus.inputs_for(d, rng, tier)
+    if fam == "float":
+        is64 = FLOAT_TYPES[d.inner]
+        sp = corpus.float_specials(is64)
+        base = [("f", b) for b in sp[:14]] + [("f", b) for b in getattr(d, "bounds", [])]
+        base += vals[:: max(1, len(vals) // 6)][:6]
+    elif fam == "int":
+        base = vals[:: max(1, len(vals) // 10)][:10] + [("i", b) for b in getattr(d, "bounds", [])]
+        base = [v for v in base if v in vals or True]
+    elif fam == "str":
+        base = [("s", x) for x in ["", "a", "A", " a", "a ", "ab", "aB", "b", "a@", "abc", "zz7", "  ", "x"]]
+    else:
+        base = vals[:10]
+    seen, out = set(), []
+    for v in base:
+        key = repr(v)
+        if key not in seen:
+            seen.add(key)
+            out.append(v)
+    return out
+
+
+def c12(tier, rng, rep, only=None):
+    decls = only if only is not None else [d for d in guardcorpus.build_corpus(rng, tier)
+                                           if d.family() == "float" and "Ord" in runner.DeclInfo(d).traits]
+
+    def ops_for(g, d, r):
+        vals = pair_inputs(d, r, tier)
+        ops = []
+        for a in vals:
+            ops.append(("try_new", val_sexp(a)))
+        info = runner.DeclInfo(d)
+        for a in vals:
+            if "TryFrom" in info.traits:
+                ops.append(("try_from", val_sexp(a)))
+        for s_ in ("NaN", "nan", "inf", "-inf", "infinity", "1e400", "-1e400", "0", "-0", "1.5"):
+            ops.append(("from_str", val_sexp(("s", s_))))
+        if "Default" in info.traits:
+            ops.append(("default", ""))
+        for a in vals:
+            for b_ in vals:
+                ops.append(("cmp2", "(p %s %s)" % (val_sexp(a), val_sexp(b_))))
+        g.add_ops(d, ops)
+    g = make_guard_run(tier, rng, decls=decls, ops_for=ops_for, spec=False)
+    run_guard(g, rep, rng)
+    n = npairs = ntriples = 0
+    for d in g.decls:
+        if d.id not in g.live:
+            continue
+        is64 = FLOAT_TYPES[d.inner]
+        rel = {}
+        for c in g.by_decl.get(d.id, []):
+            if c.impl is None:
+                continue
+            n += 1
+            if c.op in ("try_new", "try_from", "from_str", "default"):
+                if c.impl.startswith("ok (f "):
+                    bits = int(c.impl[6:-1])
+                    e = (bits >> (52 if is64 else 23)) & ((1 << (11 if is64 else 8)) - 1)
+                    if e == (1 << (11 if is64 else 8)) - 1:
+                        rep.violation("%s(%s) produced a non-finite value of a type deriving Eq/Ord: %s" % (c.op, c.arg, c.impl),
+                                      case_payload(c, g))
+                if c.op != "from_str" and c.impl != c.model:
+                    rep.violation("model and implementation differ on %s(%s): %s vs %s" % (c.op, c.arg, c.impl, c.model),
+                                  case_payload(c, g), no_input=True)
+                continue
+            if c.op != "cmp2":
+                continue
+            if c.impl == "panic":
+                rep.violation("comparison panicked on %s" % c.arg, case_payload(c, g))
+                continue
+            if c.impl == "rejected":
+                if c.model != "rejected":
+                    rep.violation("model and implementation differ on %s: impl rejected, model %s" % (c.arg, c.model), case_payload(c, g), no_input=True)
+                continue
+            kv = parse_kv(c.impl)
+            mkv = parse_kv(c.model)
+            npairs += 1
+            if kv.get("cmp") != kv.get("pcmp") or kv.get("cmp") not in ("L", "E", "G"):
+                rep.violation("cmp disagrees with partial_cmp on %s: %s" % (c.arg, c.impl), case_payload(c, g))
+            if kv.get("pcmp") != kv.get("ipcmp") or kv.get("eq") != kv.get("ieq"):
+                rep.violation("comparison differs from the inner floats on %s: %s" % (c.arg, c.impl), case_payload(c, g))
+            if mkv is None or (kv.get("eq"), kv.get("pcmp"), kv.get("cmp")) != (mkv.get("eq"), mkv.get("pcmp"), mkv.get("cmp")):
+                rep.violation("model and implementation differ on cmp2 %s: %s vs %s" % (c.arg, c.impl, c.model), case_payload(c, g), no_input=True)
+            a, b_ = c.arg[3:-1].split(") (")
+            rel[(a + ")", "(" + b_)] = kv
+        keys = sorted({k[0] for k in rel})
+        for a in keys:
+            if (a, a) in rel and rel[(a, a)]["eq"] != "1":
+                rep.violation("== is not reflexive on %s of %s" % (a, d.id), {"kind": "order-law", "decl": d.to_json(), "value": a})
+        opp = {"L": "G", "G": "L", "E": "E"}
+        for a in keys:
+            for b_ in keys:
+                if (a, b_) in rel and (b_, a) in rel and rel[(b_, a)]["cmp"] != opp.get(rel[(a, b_)]["cmp"]):
+                    rep.violation("cmp is not antisymmetric on %s, %s of %s" % (a, b_, d.id), {"kind": "order-law", "decl": d.to_json(), "values": [a, b_]})
+                for cc in keys:
+                    if (a, b_) in rel and (b_, cc) in rel and (a, cc) in rel:
+                        ntriples += 1
+                        x, y, z = rel[(a, b_)]["cmp"], rel[(b_, cc)]["cmp"], rel[(a, cc)]["cmp"]
+                        if x in ("L", "E") and y in ("L", "E"):
+                            exp = "E" if (x == "E" and y == "E") else "L"
+                            if z != exp:
+                                rep.violation("cmp is not transitive on %s, %s, %s of %s" % (a, b_, cc, d.id),
+                                              {"kind": "order-law", "decl": d.to_json(), "values": [a, b_, cc]})
+    rep.coverage.update({"evaluations": n, "distinct_nontrivial": npairs,
+                         "rule": "float declarations with `finite` deriving Eq and Ord; every entry point on NaN payloads / +-inf / +-0 / subnormals / extremes / bounds; all ordered pairs of the obtainable special-value grid through eq / partial_cmp / cmp under catch_unwind, compared with the inner floats and the model (Flocq Bcompare); reflexivity, antisymmetry and transitivity checked on all pairs / triples of the real results",
+                         "pairs": npairs, "triples": ntriples, "declarations": len(g.decls), "exhaustive": False})
+    for c in [c for c in g.cases if c.op == "cmp2"][:: max(1, npairs // 5 or 1)][:5]:
+        rep.samples.append({"decl": c.decl.id, "arg": c.arg, "impl": c.impl, "model": c.model})
+    if npairs == 0 and only is None:
+        rep.violation("self-check: no pair compared", {"kind": "coverage"}, no_input=True)
+
+
+def c13(tier, rng, rep, only=None):
+    def ops_for(g, d, r):
+        vals = guardcorpus.inputs_for(d, r, tier)
+        if len(vals) > 40:
+            vals = vals[:: max(1, len(vals) // 40)]
+        ops = [("views", val_sexp(v)) for v in vals]
+        pv = pair_inputs(d, r, tier)[:10]
+        for a in pv:
+            for b_ in pv:
+                ops.append(("cmp2", "(p %s %s)" % (val_sexp(a), val_sexp(b_))))
+        g.add_ops(d, ops)
+    g = make_guard_run(tier, rng, decls=only, ops_for=ops_for, spec=False)
+    run_guard(g, rep, rng)
+    n = nviews = npairs = 0
+    fields = {}
+    for c in g.cases:
+        if c.decl.id not in g.live or c.impl is None or c.impl in ("na", "rejected"):
+            continue
+        n += 1
+        if c.impl == "panic":
+            if c.decl.family() == "float" and c.op == "cmp2":
+                continue        # NaN through Ord of a float type is C12's concern (requires finite)
+            rep.violation("%s panicked on %s" % (c.op, c.arg), case_payload(c, g))
+            continue
+        kv = parse_kv(c.impl)
+        if kv is None:
+            continue
+        if c.op == "views":
+            nviews += 1
+            for k, v in kv.items():
+                fields[k] = fields.get(k, 0) + 1
+                if v != "1":
+                    rep.violation("%s does not expose the stored inner value for input %s of %s" % (k, c.arg, c.decl.id), case_payload(c, g))
+        else:
+            npairs += 1
+            for a, b_ in (("eq", "ieq"), ("pcmp", "ipcmp"), ("cmp", "icmp")):
+                if a in kv:
+                    fields[a] = fields.get(a, 0) + 1
+                    if kv[a] != kv[b_]:
+                        rep.violation("%s differs from the inner values' %s on %s: %s" % (a, a, c.arg, c.impl), case_payload(c, g))
+            for h in ("h", "hstr"):
+                if h in kv:
+                    fields[h] = fields.get(h, 0) + 1
+                    if kv[h] != "1":
+                        rep.violation("hash differs from the hash of the %s on %s" % ("borrowed str" if h == "hstr" else "inner value", c.arg), case_payload(c, g))
+            mkv = parse_kv(c.model)
+            if mkv is None or any(k in kv and kv[k] != mkv.get(k) for k in ("eq", "pcmp", "cmp")):
+                rep.violation("model and implementation differ on cmp2 %s: %s vs %s" % (c.arg, c.impl, c.model), case_payload(c, g), no_input=True)
+    rep.coverage.update({"evaluations": n, "distinct_nontrivial": nviews + npairs,
+                         "rule": "guard corpus (all families, generic wrapper included); every view (AsRef, Deref, Borrow, Borrow<str>, Into, Display, Clone, Copy, by-value and by-reference iteration) on obtainable values compared with the stored inner value inside the same process; eq / partial_cmp / cmp / hash on pairs (equal, adjacent, extreme, differing only before sanitisation) compared with the inner values and with the model",
+                         "checked_fields": fields, "exhaustive": False})
+    for c in [c for c in g.cases if c.impl and "=" in c.impl][:: max(1, (nviews + npairs) // 6 or 1)][:6]:
+        rep.samples.append({"decl": c.decl.id, "op": c.op, "arg": c.arg, "impl": c.impl})
+    for k in ("as_ref", "deref", "borrow", "borrow_str", "display", "clone", "copy", "into", "iter_ref", "iter_val", "eq", "pcmp", "cmp", "h", "hstr"):
+        if not fields.get(k):
+            rep.violation("self-check: %s never checked" % k, {"kind": "coverage"}, no_input=True)
+
+
 PROPS = {
     "C01": (["Props/C01.v"], c01, ["bound expressions evaluate without overflow (corpus keeps them in range)",
                                    "user closures are total functions (library of harness/rtgen.py)",
@@ -428,6 +787,15 @@ PROPS = {
                                    "variant names are read through a wildcard-free match generated per declaration"]),
     "C03": (["Props/C03.v"], c03, ["conversions are compared on thinned C01 input domains",
                                    "Default is observed under catch_unwind"]),
+    "C14": (["Props/C14.v"], c14, ["arbitrary 1.3.2 int_in_range is modelled (Sem/Bytes.v) and validated by this exhaustive enumeration",
+                                   "declarations with a custom sanitizer are outside C14_surjective (d_sans = []) and are not enumerated"]),
+    "C09": (["Props/C09.v"], c09, ["arbitrary 1.3.2 primitives (fill_buffer, int_in_range, char) are modelled, not verified",
+                                   "String::arbitrary / f32::arbitrary of declarations without validation: only totality is observed",
+                                   "float generator: partial (see DESIGN 5 C09), recorded classes"]),
+    "C12": (["Props/C12.v"], c12, ["lib_typed: user sanitizers return a float when given a float (enforced by rustc)",
+                                   "IEEE semantics by Flocq Bcompare; order laws proved without reals (SpecFloat.SFcompare)"]),
+    "C13": (["Props/C13.v"], c13, ["views are compared with the inner value inside the Rust process (bitwise for floats)",
+                                   "hashes use std DefaultHasher with fixed keys"]),
     "C06": (["Props/C06.v"], c06, ["the inner type's FromStr is an oracle (its real result is given to the model)",
                                    "`Any`/generic inner types with FromStr are not in the corpus yet"]),
 }
